@@ -1,14 +1,20 @@
 -------------------------- MODULE SuffixIndexTraceSa --------------------------
 (* Trace validation for family "sa" (C03).                                   *)
 (* run.cfg = [kind, text]; events:                                            *)
-(*   suffix_array      {}           -> sa    IsSortedSA(sa, text)             *)
-(*   suffix_array_int  {w}          -> sa    the same order on a dense integer*)
-(*                                           text ending in a unique 0        *)
+(*   suffix_array      {}           -> sa    IsValidSA(sa, text): sorted under *)
+(*                                           the comparison whose sentinel    *)
+(*                                           order is read off sa (any fixed  *)
+(*                                           order, final sentinel smallest)  *)
+(*   suffix_array_int  {w}          -> sa    the same on a dense integer text *)
+(*                                           ending in a unique 0             *)
 (*   lcp               {sa}         -> lcp   = LcpDef(text, sa)  (n+1 entries)*)
 (*   sus               {sa}         -> sus   = SusDef(text)      (-1 = None)  *)
 (*   sample            {sa,s,k,own} -> v,oob v[i] = sa[i] for every i,        *)
 (*                                           get(n) = None                    *)
 (* `sa` arguments are the array returned (and validated) by the first event.  *)
+(* Explains = the property (REJECT when false).  Exact = conformance with the *)
+(* machine layer: the code's concrete sentinel order (reverse text order,     *)
+(* Transform); a failure while the property holds is a DRIFT, not an alarm.   *)
 EXTENDS SuffixIndex, Json, IOUtils
 
 Rec == ndJsonDeserialize(IOEnv.TRACE)
@@ -21,8 +27,8 @@ SeqEq(a, f, n) == Len(a) = n /\ \A i \in 1..n : a[i] = f[i]
 Explains(cfg, e) ==
     LET c == e.c  r == e.r  t == cfg.text  n == Len(cfg.text) IN
     /\ r.st = "ok"
-    /\ CASE c.op = "suffix_array" -> cfg.kind = "bytes" /\ SentinelOK(t) /\ IsSortedSA(r.sa, t)
-         [] c.op = "suffix_array_int" -> cfg.kind = "int" /\ DenseInt(t) /\ IsSortedSA(r.sa, t)
+    /\ CASE c.op = "suffix_array" -> cfg.kind = "bytes" /\ SentinelOK(t) /\ IsValidSA(r.sa, t)
+         [] c.op = "suffix_array_int" -> cfg.kind = "int" /\ DenseInt(t) /\ IsValidSA(r.sa, t)
          [] c.op = "lcp" -> /\ SingleSentinel(t) /\ n >= 2
                             /\ IsPerm(c.a.sa, n)
                             /\ SeqEq(r.lcp, LcpDef(t, c.a.sa), n + 1)
@@ -33,10 +39,15 @@ Explains(cfg, e) ==
                                /\ r.oob = None
          [] OTHER -> FALSE
 
+\* machine-layer conformance (only evaluated when Explains holds): with fewer than three sentinel
+\* occurrences there is only one admissible order
+Exact(cfg, e) ==
+    IF e.c.op = "suffix_array" /\ SentCount(cfg.text) >= 3 THEN IsSortedSA(e.r.sa, cfg.text) ELSE TRUE
+
 \* Cross-checks of the specification itself at the real constants (Esc = 127, T = 64, the logged
 \* rates): the machine layer, run on the recorded arguments, must agree with the definition layer.
 \* A violation is an inconsistency of the spec (tool error), never a statement about rust-bio.
-\* (Guarded by IsSortedSA of the logged array: on a wrong array -- mutated code -- nothing is claimed.)
+\* (Guarded by IsValidSA of the logged array: on a wrong array -- mutated code -- nothing is claimed.)
 RECURSIVE KasaiRun(_, _, _, _, _)
 KasaiRun(st, sm, t, sa, rank) ==
     IF st.p >= Len(t) - 1 THEN <<st, sm>>
@@ -48,16 +59,16 @@ SGetRun(st, sa, ix, s, sent) == IF st.done THEN st.val ELSE SGetRun(SGetStep(st,
 MachineAgrees ==
     idx > 0 =>
         LET e == Rec[run].ev[idx]  t == Rec[run].cfg.text  n == Len(Rec[run].cfg.text) IN
-        CASE e.c.op = "lcp" /\ n <= 400 /\ n >= 2 /\ SingleSentinel(t) /\ IsSortedSA(e.c.a.sa, t) ->
+        CASE e.c.op = "lcp" /\ n <= 400 /\ n >= 2 /\ SingleSentinel(t) /\ IsValidSA(e.c.a.sa, t) ->
                LET sa  == e.c.a.sa
                    fin == KasaiRun(KasaiInit(n), <<[r \in 1..(n + 1) |-> -1], << >> >>, t, sa, Eager(RankOf(sa)))
                IN  \A r \in 1..(n + 1) :
                       /\ fin[1].lcp[r] = LcpDef(t, sa)[r]
                       /\ SmallIntsGet(fin[2][1], fin[2][2], r, 127) = fin[1].lcp[r]
-          [] e.c.op = "sus" /\ n <= 150 /\ n >= 2 /\ SingleSentinel(t) /\ IsSortedSA(e.c.a.sa, t) ->
+          [] e.c.op = "sus" /\ n <= 150 /\ n >= 2 /\ SingleSentinel(t) /\ IsValidSA(e.c.a.sa, t) ->
                LET sa == e.c.a.sa  l == Eager(LcpDef(t, sa)) IN
                \A p \in 1..n : SusViaLcp(sa, l)[p] = SusPairs(t)[p]
-          [] e.c.op = "sample" /\ n <= 150 /\ SentinelOK(t) /\ IsSortedSA(e.c.a.sa, t) /\ e.c.a.s >= 1 /\ e.c.a.k >= 1 ->
+          [] e.c.op = "sample" /\ n <= 150 /\ SentinelOK(t) /\ IsValidSA(e.c.a.sa, t) /\ e.c.a.s >= 1 /\ e.c.a.k >= 1 ->
                LET sa == e.c.a.sa
                    ix == MkIndex(t, sa, e.c.a.k, 64, Range(t))
                IN  \A i \in 0..(n - 1) : SGetRun(SGetInit(i), sa, ix, e.c.a.s, Sentinel(t)) = sa[i + 1]
@@ -68,7 +79,9 @@ Next ==
     /\ ok /\ idx < Len(Rec[run].ev)
     /\ LET good == Explains(Rec[run].cfg, Rec[run].ev[idx + 1])
        IN  /\ ok' = good
-           /\ IF good THEN TRUE ELSE PrintT(<<"REJECT", run, idx + 1>>)
+           /\ IF good
+              THEN (IF Exact(Rec[run].cfg, Rec[run].ev[idx + 1]) THEN TRUE ELSE PrintT(<<"DRIFT", run, idx + 1>>))
+              ELSE PrintT(<<"REJECT", run, idx + 1>>)
     /\ idx' = idx + 1
     /\ UNCHANGED run
 Spec == Init /\ [][Next]_vars
